@@ -88,3 +88,13 @@ BUILT['C09'] = {
     'level': 'Runtime monitoring: inputs pooled from the other properties\' generators plus determinism-specific shapes are evaluated N times in one process, from G goroutines at once (half of them on other inputs) in a -race build for R rounds, and in fresh processes from files with shuffled key order; all events of one input must be identical and the race detector must report nothing. Holds for the executions and interleavings produced only.',
     'note': 'Trusted: Go race detector (reports only races on executed paths), worker concurrency driver (one Parser per goroutine). Error messages are not compared.',
 }
+BUILT['C18'] = {
+    'technique': 'syscall-trace monitor (strace -f -y on the real binary) + non-interference monitor (decoys rewritten / removed) at the process boundary and through nested SetRoot in the library',
+    'level': 'Runtime monitoring: sandbox trees with decoy layers outside the root that inputs inside the root try to reach ($parent with .., absolute, wildcard; file/dir/chained/absolute/re-entering symlinks; sibling directories whose names extend the root\'s); all root spellings and nested SetRoot escape attempts. Under strace no read-class syscall may touch a regular file outside the root; re-running with decoys rewritten and removed must not change stdout/status; decoy content must never appear. Holds for the executions produced only.',
+    'note': 'Trusted: strace -y fd-to-path decoding, the trace parser (self-checked), layout builder. Existence probes (stat/readlink/getdents) outside the root are counted, not judged.',
+}
+BUILT['C20'] = {
+    'technique': 'wrapped-program-boundary monitor: a recording spy placed on PATH behind bklb (symlink spyb) and kubectl-bkl, expectations taken from the real bkl binary',
+    'level': 'Runtime monitoring: generated argument vectors (flags, --opt=value, words, non-bkl files, layers with parents, virtual names, two names for one layer, unsupported extensions, missing names, failing layers) are passed to the real wrappers; the spy\'s recorded argv must have the same length and order, non-resolvable arguments byte-identical, every resolvable one replaced by a file whose bytes equal `bkl <arg>`, the wrapped program\'s exit status passed on, and the spy must not run when an evaluation fails. Holds for the executions produced only.',
+    'note': 'Trusted: the spy (harness/go/cmd/spy), the resolvability rule restated in harness/bv/props/c20.py. Temp-file naming/clean-up and -.ext arguments are not judged.',
+}
